@@ -87,6 +87,13 @@ let () =
            let r = runave_run fops l stride it0 r0 None h in
            Printf.printf "%s\n" (String.concat " ; " (List.map (fun (((t, av), var), sd) ->
                Printf.sprintf "%d %s %s %s" (int_of_nat t) (hex av) (hex var) (hex sd)) r))
+         | "LABEL" ->
+           (* LABEL width prefix|- name : characters as they are *)
+           let width = nn () in let pre = next () in let name = next () in
+           let codes s = List.init (String.length s) (fun i -> nat_of_int (Char.code s.[i])) in
+           let pre = if pre = "-" then "" else pre in
+           let tok = label_token (codes pre) (codes name) width in
+           Printf.printf "%s\n" (String.concat "" (List.map (fun c -> String.make 1 (Char.chr (int_of_nat c))) tok))
          | "OUT" ->
            let rf = nz () in let itr = nz () in let nbs = ni () in
            let bs = List.init nbs (fun _ -> let b = nz () in let f = nz () in (b, f)) in
